@@ -125,6 +125,13 @@ func (m *engineImpl) Close() {
 	}
 	for _, a := range m.abandoned {
 		_ = os.RemoveAll(filepath.Join(a.dir, "data", "dbs"))
+		for _, db := range a.store.DBs() { // a dead process holds no application locks
+			for owner := uint64(1); owner <= 12; owner++ {
+				if gs := db.GuardSet(owner); gs != nil {
+					gs.Unlock()
+				}
+			}
+		}
 		_ = a.store.Close()
 		_ = os.RemoveAll(a.dir)
 	}
@@ -918,6 +925,9 @@ func (m *engineImpl) crashRestart(role string) string {
 	m.closeFiles()
 	m.abandoned = append(m.abandoned, abandonedStore{m.store, m.dir}) // closed (after its files are removed) at the end of the case
 	m.store, m.db, m.exit, m.dir = nil, nil, 0, newDir
+	if role == "" {
+		return "ok" // the caller opens the store on the copy
+	}
 	if err := m.openStore(role); err != nil {
 		m.store = nil
 		return "err open"
